@@ -395,8 +395,24 @@ def gen_angles(rng, n, tier="quick"):
     while i < n:
         o = gens.rand_observer(rng, tuples=False)
         naive = rand_instant(rng)
+        corner = None
+        if rng.random() < 0.12:
+            # the corners of (offset, longitude, clock reading): a far-east clock showing the
+            # first hour and a half of its day at a far-west longitude, and the reverse — where
+            # "true solar time" lies more than a day outside 0…1440 before it is normalised
+            from astral import Observer as _O3
+            east = rng.random() < 0.6
+            o = _O3(o.latitude, rng.uniform(-180.0, -150.0) if east else rng.uniform(150.0, 180.0), o.elevation)
+            offm = rng.choice([720, 765, 780, 840, 825]) if east else rng.choice([-720, -660, -600, -570])
+            mins = rng.uniform(0, 90) if east else rng.uniform(1350, 1439.9)
+            local = datetime.datetime(naive.year, naive.month, naive.day) + datetime.timedelta(minutes=mins)
+            try:
+                naive = (local - datetime.timedelta(minutes=offm)).replace(microsecond=0)
+                corner = offm
+            except OverflowError:
+                corner = None
         zamb = None
-        if rng.random() < 0.08:
+        if corner is None and rng.random() < 0.08:
             zamb, n_ = zones.ambiguous_instant(rng)
             if zamb is not None:
                 naive = n_
@@ -409,6 +425,10 @@ def gen_angles(rng, n, tier="quick"):
             spell.append((dtb, I(td_us(dtb.utcoffset())), zamb.describe() + " fold"))
         if rng.random() < 0.5:
             spell.append((u, I(0), "UTC"))
+        if corner is not None:
+            zc = zones.fixed(corner)
+            dtc = u.astimezone(zc.tzinfo)
+            spell.append((dtc, I(td_us(dtc.utcoffset())), zc.describe()))
         for _ in range(rng.randint(1, 2)):
             z = zones.rand_zone(rng, naive.date())
             dt = u.astimezone(z.tzinfo)
